@@ -243,7 +243,13 @@ def check(ck):
     fcgi = prog.func(SRV, "CGIJSONRPCRequestHandler.handle_jsonrpc")
     gcg = cfg_of(fcgi)
     dcg = [(n, c) for n in gcg.live_nodes() for c in node_calls(n) if call_name(c) == "_marshaled_dispatch"]
-    okk = len(dcg) == 1 and dcg[0][1].args and prov.origin(gcg, dcg[0][0], dcg[0][1].args[0]) == ("param", fcgi.params[1])
+    def _req_text(a_):
+        # the parameter itself, or its decoding when it was handed over as bytes
+        pr_ = ("param", fcgi.params[1])
+        return a_ == pr_ or (a_[0] == "call" and a_[1][0] == "attr" and a_[1][1] == pr_ and a_[1][2] == "decode") or \
+            (a_[0] == "call" and prov.show(a_[1]).endswith("from_bytes") and a_[2] and a_[2][0] == pr_)
+    okk = len(dcg) == 1 and dcg[0][1].args and all(_req_text(a_) for a_ in prov.value_alts(prov.origin(gcg, dcg[0][0], dcg[0][1].args[0]))) and \
+        ("param", fcgi.params[1]) in prov.value_alts(prov.origin(gcg, dcg[0][0], dcg[0][1].args[0]))
     ck.require(okk, "C01.8", "%s: dispatch receives the request text" % q.fn(fcgi), "self._marshaled_dispatch(request_text)",
                "the CGI handler does not hand the request text to the dispatcher", q.loc(fcgi, fcgi.node))
     wcg = [(m, cc) for m in gcg.live_nodes() for cc in node_calls(m) if call_name(cc) == "write" and cc.args]
@@ -313,6 +319,9 @@ def check(ck):
                     if a[0] == "call" and prov.show(a[1]).endswith("jsonclass.dump") and a[2] and \
                             prov.alts(a[2][0]) <= set([("param", "params"), ("tuple", ())]):
                         continue
+                    if a[0] == "call" and a[1] in (("global", "list"), ("global", "tuple")) and len(a[2]) == 1 and not a[3] and \
+                            prov.alts(a[2][0]) <= set([("param", "params"), ("tuple", ())]):
+                        continue        # list(params): the JSON form of a tuple of arguments
                     allowed = False
                 ck.require(allowed, "C01.2", "%s: payload.%s(..., %s)" % (q.fn(fd), c.func.attr, dump(pe)),
                            "params reach the payload through the declared normalisers only",
